@@ -346,10 +346,30 @@ func (g *G) loopStmt(bd, d int) []hs.Stmt {
 // ---------------------------------------------------------------------------------------------
 // program
 
+type FnSig struct {
+	Name   string
+	Params []hs.Type
+	Ret    hs.Type
+}
+
 type Generated struct {
 	Prog       *hs.Program
 	HostSingle map[string]hs.Value // host-provided singleton values ("$Name")
 	Feat       map[string]int
+	Fns        []FnSig // host-callable functions (singleton parameters excluded from Params)
+}
+
+// DrawValue draws a model value of the given type (for host arguments).
+func DrawValue(t *rapid.T, ty hs.Type) hs.Value {
+	g := &G{t: t, c: ModelCfg(), Feat: map[string]int{}, usesHost: map[string]bool{}}
+	g.scopes = [][]varInfo{nil}
+	lit := g.literal(ty)
+	ev := hs.NewEvaluator(&hs.Program{Entry: "m", Modules: []*hs.Module{{Name: "m"}}})
+	v, ok := ev.EvalConst(lit)
+	if !ok {
+		return hs.Zero(ty)
+	}
+	return v
 }
 
 // Program draws a single-module program in the configured fragment.
@@ -437,6 +457,9 @@ func Program(t *rapid.T, c Cfg) *Generated {
 	}
 	out.Prog = &hs.Program{Entry: "main", Modules: []*hs.Module{m}}
 	out.Feat = g.Feat
+	for _, f := range g.fns {
+		out.Fns = append(out.Fns, FnSig{Name: f.name, Params: f.params, Ret: f.ret})
+	}
 	return out
 }
 
